@@ -1,4 +1,5 @@
 """C15 - UDP retransmission envelope + own message ids ignored (DESIGN.md section 4, C15)."""
+import json
 import subprocess
 
 from lib import NAT, Raw, coqlit
@@ -155,6 +156,63 @@ def run(ctx):
     ctx.count('dedup', len(cases), [(c[2], tuple(map(tuple, c[3]))) for c in cases], at_capacity_steps=n_evict)
     ctx.sample({'stream': 'dedup', 'cap': cases[0][2], 'events': cases[0][3], 'impl': cases[0][4]} if cases else None)
 
+    # ---------------------------------------------------------------- stream 3: the send loop (actual transmissions)
+    # the real _run_send on a virtual clock; several messages in flight, enqueued at different times
+    sl_cases = []
+    for _ in range(ctx.n(120, 1500)):
+        k = ctx.rng.choice([1, 2, 2, 3, 4])
+        inj = []
+        for j in range(k):
+            pname = ctx.rng.choice(['UNICAST_REPEAT_PARAMS', 'MULTICAST_REPEAT_PARAMS'])
+            P = impl['unicast' if pname.startswith('UNI') else 'multicast']['params']
+            inj.append({'id': f'm{j}', 'params': pname, 'at_ms': 0 if j == 0 else ctx.rng.choice([0, 5, 37, 120, 333, 800, 1500]),
+                        'd0': ctx.rng.randint(0, P[0]), 'g': ctx.rng.randint(P[2], P[3] - 1)})
+        sl_cases.append(inj)
+    r = ctx.impl('c15_impl', {'cap': 3, 'dedup': [], 'sendloop': sl_cases})
+    if r.get('_crash'):
+        ctx.broken('correspondence', 'sendloop', r['stderr'][-800:])
+    else:
+        late_hist = {}
+        for inj, res in zip(sl_cases, r['sendloop']):
+            idle, busy = (min(x, 250000) for x in res['raster_us'])
+            why = None
+            due = {(i, rep): t for i, rep, t, _at, _empty in res['enqueued']}
+            # a transmission goes out at the first poll at or after its scheduled time: the loop polls every `busy`
+            # seconds while the queue holds something and every `idle` seconds while it is empty
+            latest = {(i, rep): (max(t, at + idle) if empty else t) + 2 * busy + 1000 for i, rep, t, at, empty in res['enqueued']}
+            got = {}
+            for i, rep, t in res['sent']:
+                got.setdefault((i, rep), []).append(t)
+            if res['error']:
+                why = f'the send loop failed: {res["error"]}'
+            elif res['left']:
+                why = f'{res["left"]} queue entries were never transmitted'
+            else:
+                for key, t_due in sorted(due.items()):
+                    ts = got.get(key, [])
+                    if len(ts) != 1:
+                        why = f'transmission {key[1]} of message {key[0]} was sent {len(ts)} times'
+                        break
+                    late = ts[0] - t_due
+                    late_hist[min(late // 10000, 30)] = late_hist.get(min(late // 10000, 30), 0) + 1
+                    if late < 0 or ts[0] > latest[key]:
+                        why = (f'transmission {key[1]} of message {key[0]} was due at {t_due} us but went out at {ts[0]} us '
+                               f'({late} us late; the send raster allows it until {latest[key]} us)')
+                        break
+                if not why and set(got) - set(due):
+                    why = f'transmissions that were never enqueued: {sorted(set(got) - set(due))[:3]}'
+            if why:
+                ctx.fail(f'send loop with {len(inj)} message(s) in flight: {why}',
+                         {'stream': 'sendloop', 'clause': why.split(' ')[0] + ' ' + why.split(' ')[1]},
+                         {'stream': 'sendloop', 'case': {'messages': inj}, 'impl_trace': res,
+                          'oracle': {'verdict': 'fail', 'clause': 'every enqueued transmission goes out once, not before and at most one '
+                                                                   'send-raster step after its scheduled time'}})
+        ctx.count('sendloop', len(sl_cases), [json.dumps(x, sort_keys=True) for x in sl_cases],
+                  messages_in_flight={str(k): sum(1 for c in sl_cases if len(c) == k) for k in (1, 2, 3, 4)},
+                  lateness_histogram_10ms={str(k): v for k, v in sorted(late_hist.items())})
+        if sl_cases:
+            ctx.sample({'stream': 'sendloop', 'messages': sl_cases[0], 'impl': r['sendloop'][0]})
+
     if ctx.thorough:
         hits = ctx.gate_grep(['Wsd', 'Common', 'Props/C15.v'] if False else ['Wsd', 'Common'])
         if hits:
@@ -164,7 +222,9 @@ def run(ctx):
         rule='schedule: the full grid of both random draws (d0 in 0..init, g in min..max-1) for the unicast and '
              'multicast parameter sets with random/time rebound, every queue entry compared with the extracted model '
              'and judged by the envelope oracle; distinct = distinct queue contents. dedup: random Out/In event lists '
-             'over small capacities plus one run across the real capacity; distinct = distinct (cap, events).',
+             'over small capacities plus one run across the real capacity; distinct = distinct (cap, events). sendloop: '
+             'the real _run_send on a virtual clock with 1-4 messages in flight, enqueued at different times; every actual '
+             'transmission is compared with the queue entry it belongs to (oracle only, no model).',
         assumptions=['time.time() is constant during one call of _repeated_enqueue_msg (virtual clock)',
                      'float arithmetic on send times is exact to 1 us for the value ranges involved (times are rounded to us)',
                      'PriorityQueue returns entries in send_time order'],
@@ -172,4 +232,4 @@ def run(ctx):
                       'extraction: ExtrOcamlBasic only, no Extract Constant/Inductive of our own; ocaml/driver_c15.ml + zutil.inc',
                       'correspondence harness harness/impl/c15_impl.py (rebinds networkingthread.random/time, builds '
                       'NetworkingThread without sockets via object.__new__)'],
-        not_modelled=['UDP sockets and the send loop (_run_send) 10 ms raster', 'XML parsing of incoming datagrams (real parser is used, not modelled)'])
+        not_modelled=['UDP sockets; the send loop (_run_send) is not modelled in Coq: its transmissions are judged by the sendloop oracle against the queue entries (10 ms raster)', 'XML parsing of incoming datagrams (real parser is used, not modelled)'])
